@@ -152,12 +152,50 @@ class Check:
                 self.ctx.twins.setdefault(cid, []).append(t)
         if need_sites:
             self.site_tables()
+            self.calibrate_depth()
         self.group_configs()
         log(
             f"[ref] contracts={len(ids)} usable={len(self.ctx.contracts)} small={len(self.ctx.small)} "
             f"bad_inputs={len(self.ctx.bad_inputs)} with_subs={len(self.ctx.with_subs)} "
             f"ref_sessions={self.refs.sessions} t={time.time()-self.t0:.1f}s"
         )
+
+    def calibrate_depth(self) -> None:
+        """Depth probes (sim/synth.py): the smallest M for which `deep<M>` runs out of stack in a
+        pristine interpreter; `deep<M+5>` (fails alone) and `deep<M-6>` (completes alone) join
+        ctx.deep, the contracts generators analyse after faults and rejected builds."""
+        assert self.refs is not None
+
+        def fails(m: int) -> Optional[bool]:
+            r = self.refs.refs.get(("single", "deep%03d" % m))
+            if r is None or r.get("outcome") == "unavailable":
+                return None
+            if r.get("outcome") != "ok":
+                return "RecursionError" in str(r.get("exc"))
+            return any(len(d) > 2 and "RecursionError" in str(d[2]) for d in r.get("obs", {}).get("dets", []))
+
+        coarse = list(range(6, 200, 8))
+        for m in coarse:
+            self.refs.need(("single", "deep%03d" % m))
+        self.refs.compute(timeout=600, alt_pct=0)
+        hi = next((m for m in coarse if fails(m)), None)
+        if hi is None or hi == coarse[0]:
+            log("[ref] depth probes not calibrated (no M in range runs out of stack)")
+            return
+        for m in range(hi - 7, hi):
+            self.refs.need(("single", "deep%03d" % m))
+        self.refs.compute(timeout=600, alt_pct=0)
+        mstar = next((m for m in range(hi - 7, hi + 1) if fails(m)), hi)
+        probes = ["deep%03d" % (mstar + 5), "deep%03d" % (mstar - 6)]
+        for c in probes:
+            self.refs.need(("single", c))
+        self.refs.compute(timeout=600, alt_pct=0)
+        if fails(mstar + 5) is not True or fails(mstar - 6) is not False:
+            log("[ref] depth probes not calibrated (not monotone around M*)")
+            return
+        self.ctx.deep.extend(probes)
+        self.ctx.depth_probes = probes
+        self.stats["depth_probes"] = {"M_star": mstar, "fails_alone": probes[0], "completes_alone": probes[1]}
 
     def site_tables(self) -> None:
         """Fault-free tracing pass: which tealer functions does an operation enter, how often."""
@@ -579,6 +617,7 @@ class Check:
                 "rerun_of_old_tealer_after_other_work": st["probe_rerun_after_other_work"],
             },
             "traced_call_events": st["traced_call_events"],
+            "depth_probes": st.get("depth_probes", "not calibrated"),
             "bounded_progress": {
                 "post_fault_operations_under_step_counter": st.get("step_budget_checked", 0),
                 "max_ratio_to_reference_step_count": st.get("step_budget_max_ratio", 0.0),
